@@ -17,7 +17,7 @@ PROPS["C12"] = {
     "builds": ["stable", "nightly", "simd"],
     "rule": "cases: every subkey length 0..=80 x ids {0,1,2^32,2^63,2^64-1,255,256,2^32-1,PRNG} x key/context sets (zero, PRNG, 0xff); "
             "each case is run on dryoc (catch_unwind), on the extracted Coq model (correspondence) and on libsodium (search); "
-            "non-trivial = length in 16..=64 (reaches the hash), distinct by (op,args)",
+            "non-trivial = length in 16..=64 (reaches the hash), distinct by (op,args) Also under the nightly + simd_backend build.",
     "modelled": ["BLAKE2b buffering and compression are modelled by hand (Impl/Blake2b.v) and proved equal to RFC 7693 (Refine/Blake2b.v); SIGMA/IV/constants/Params layout are regenerated from the source each run"],
     "assumptions": ["libsodium's crypto_kdf_derive_from_key is the reference for 'matches libsodium'",
                     "distinctness of subkeys beyond the parameter block: BLAKE2b collision resistance"],
@@ -52,7 +52,7 @@ PROPS["C09"] = {
     "gen_obligations": ["GenTie.blake2b_tables_tie", "GenTie.blake2b_params_tie", "Gen/Kernels.v (vkernel.py): argon2 g closure, g calls, fill_block index expressions, fblamka template"],
     "builds": ["stable"],
     "rule": "output lengths (every residue mod 32 around 64, 96, 128; 16..1100) x both algorithms at 8 KiB; password lengths 0..300 (thorough: all; quick: the BLAKE2b block edges of the pre-hash); pass counts 1..6 x memory sizes 8 KiB..1 MiB (thorough: every KiB 8..64, up to 4 MiB) including non-multiples of 4 KiB and of 1 KiB; salts of 8..100 bytes; out-of-range opslimit / memlimit (incl. values whose low 32 bits are in range) / outlen 0..15 / salt 0..7; PwHash::hash_with_salt / verify with near-miss passwords and resized stored hashes. "
-            "search: libsodium wherever its interface applies (16-byte salt; t >= 3 for Argon2i). correspondence: the extracted model for the small-memory cases and everything libsodium cannot take. non-trivial: all cases (each reaches the hash or its validation)",
+            "search: libsodium wherever its interface applies (16-byte salt; t >= 3 for Argon2i). correspondence: the extracted model for the small-memory cases and everything libsodium cannot take. non-trivial: all cases (each reaches the hash or its validation) Records of both algorithms verify through the object API; memory sizes with partly used address blocks.",
     "modelled": ["src/argon2.rs is modelled by hand (Impl/Argon2.v: flat memory, fill_segment offsets, index_alpha with explicit u32/u64 wrap, generate_addresses, fill_block with the 16 index lists), validated on the two RFC 9106 vectors inside Coq and tied to the crate by correspondence",
                  "Vec indexing is totalised with nth in the executable model; Refine/Argon2Safe.v re-runs the filling loop with every index checked and proves the check never fails (C09_fill_segment_indices_in_range)",
                  "BLAKE2b: Impl/Blake2b.v proved = RFC 7693; tables regenerated from the source each run"],
@@ -77,7 +77,7 @@ PROPS["C18"] = {
     "cross_build": True,
     "timeout": 6000,
     "rule": "ONE probe corpus -- the C07 (hashes, every length / key), C08 (every chunking), C12 (kdf), C09 (pwhash grid), C05 (X25519 / kx) and C13 (signatures) generators, then a container section (generic hash, kdf, box precalculation, key pairs, kx sessions, boxes, secret boxes, signatures, pwhash through stack / Vec and, on nightly, heap / locked / locked-read-only containers against the classic functions and libsodium) -- is run under each of {default, nightly, nightly + simd_backend}. "
-            "Every transcript is compared with the extracted model (correspondence per build) and the transcripts are compared case by case with each other (cross_build). non-trivial: as in the source properties",
+            "Every transcript is compared with the extracted model (correspondence per build) and the transcripts are compared case by case with each other (cross_build). non-trivial: as in the source properties The resize script passes non-zero fill values and compares the containers straight after each resize.",
     "modelled": ["the SIMD compression function is TRANSLATED (not hand-modelled); std::simd semantics (lane-wise wrapping +, ^, shifts; simd_swizzle! index convention: lanes 0..3 of the first operand, 4..7 of the second) are given by Impl/Blake2bSimd.v and validated by the simd build's correspondence",
                  "the buffering code of blake2b_simd.rs is compared with blake2b_soft.rs as text after renaming the state fields; the software buffering is the one modelled (Impl/Blake2b.v)",
                  "containers, the nightly/default configuration switch, sha2's assembly backend and curve25519-dalek's backends are not in the model: cross-build / container comparison only"],
@@ -114,7 +114,7 @@ PROPS["C07"] = {  # gen: Gen/Kernels.v (vkernel.py)
     "builds": ["stable", "simd"],
     "rule": "every input length 0..=1100 for onetimeauth / auth / sha512 / shorthash / generichash on dryoc vs libsodium (search); the extracted model sees every length 0..=260 and a stride above (correspondence); "
             "digest x key length grid incl. rejected pairs; adversarial Poly1305 operands (r=1,2,max; unreduced accumulator p-8..p+3, +2^128, tails; s=0, 2^128-1); verify accept + every single-bit MAC flip; "
-            "cores on PRNG/extreme inputs; increment on 0xff-runs. non-trivial = reaches the primitive (valid lengths), distinct by (op,args)",
+            "cores on PRNG/extreme inputs; increment on 0xff-runs. non-trivial = reaches the primitive (valid lengths), distinct by (op,args) Also under the nightly + simd_backend build. Key lengths at the edges (none, empty, 1, 15/16/17, 64/65).",
     "modelled": _SYM_MODELLED + ["SHA-512 / HMAC: implementation is the external sha2 crate; Spec/Sha512.v is an executable FIPS 180-4 reference tied by correspondence",
                                   "SipHash, HSalsa20, HChaCha20: model = specification (the Rust kernels are compared by correspondence; see DESIGN 'Changes')"],
     "assumptions": ["libsodium as second reference", "Poly1305 limb arithmetic = RFC 8439 is checked by correspondence incl. carry corner operands (proof pending, see DESIGN 'Changes')"],
@@ -133,7 +133,7 @@ PROPS["C08"] = {
     ],
     "builds": ["stable", "simd"],
     "rule": "every 2-way split of every length 0..=300 and every 3-way split of every length 0..=140 (thorough 600/260) on dryoc for onetimeauth, generichash (keyed/unkeyed), auth, sha512 (search, exhaustive over that family); "
-            "object-API incremental interfaces; PRNG k-way partitions with empty pieces of 1-8 KiB messages; a 0.5% (thorough 2%) sample of the partitions through the extracted model (correspondence). non-trivial: all; distinct by (op,args)",
+            "object-API incremental interfaces; PRNG k-way partitions with empty pieces of 1-8 KiB messages; a 0.5% (thorough 2%) sample of the partitions through the extracted model (correspondence). non-trivial: all; distinct by (op,args) Also under the nightly + simd_backend build; one-shot against every chunking for 64-byte and odd digest lengths at block multiples; edge key lengths.",
     "modelled": _SYM_MODELLED,
     "assumptions": ["sha2::Sha512 update law (validated on every split by the search)", "Poly1305 buffering: correspondence (theorem pending)"],
     "partial": "BLAKE2b and Poly1305 proved; SHA-512 / HMAC incremental forms are folds over the external hasher (C08_external_hasher), the hasher itself by correspondence",
@@ -169,7 +169,7 @@ PROPS["C02"] = {
     ],
     "builds": ["stable"],
     "rule": "for every message length 0..=40 (thorough 200): every single-bit flip of tag, body, nonce, key, sender public key, recipient secret key, sealed ephemeral key; every truncation; extensions by 1..17 and 64 bytes; "
-            "stream pull: every bit of ciphertext / AD / key / state nonce / header, truncations, extensions, AD extension; all classic forms + object API (search, exhaustive over that family); a sample through the model (correspondence of verdict and buffer). non-trivial: all",
+            "stream pull: every bit of ciphertext / AD / key / state nonce / header, truncations, extensions, AD extension; all classic forms + object API (search, exhaustive over that family); a sample through the model (correspondence of verdict and buffer). non-trivial: all For every first-message tag byte two further untampered messages are pulled (classic and object interface).",
     "modelled": _SYM_MODELLED,
     "assumptions": ["rejection of body / nonce / key / header tampering = no Poly1305 collision under the changed one-time key (probability <= 8*ceil(L/16)/2^106 per forgery) and Salsa20/ChaCha20 as PRFs: cryptographic assumption, not provable"],
     "partial": "structural half proved (accept iff MAC, tag tamper, lengths); body/nonce/key tamper rests on the MAC assumption and is enumerated on the implementation",
@@ -187,7 +187,7 @@ PROPS["C17"] = {
         {"name": "C17_example", "status": "proved", "statement": "non-vacuity by vm_compute"},
     ],
     "builds": ["stable"],
-    "rule": "the C02 tamper family; after every Err the caller's message buffer (pre-filled with 0xa5) must be unchanged or zero, the stream tag variable (0xee) unchanged, the stream state unchanged (search); sample through the model comparing the buffer bytes (correspondence)",
+    "rule": "the C02 tamper family; after every Err the caller's message buffer (pre-filled with 0xa5) must be unchanged or zero, the stream tag variable (0xee) unchanged, the stream state unchanged (search); sample through the model comparing the buffer bytes (correspondence) Opens into a window at offsets 0..9 of a larger buffer.",
     "modelled": _SYM_MODELLED,
     "assumptions": [],
     "partial": "",
@@ -202,7 +202,7 @@ PROPS["C03"] = {
     ],
     "builds": ["stable"],
     "rule": "700 (thorough 6000) PRNG histories of depth <= 8 (24) over {push(len, adlen, tag byte), explicit rekey, deliver-in-order, deliver-wrong(replay|skip|foreign|wrong-AD|bit-flip|truncated|longer-AD)}, started at counter 1 / mid / 0xfffffffe / 0xffffffff through hook State::verif_from_parts; "
-            "dryoc vs libsodium: ciphertexts, recovered messages/tags, both states after every step (search); the same histories through the extracted model (correspondence); object API push/pull vs classic",
+            "dryoc vs libsodium: ciphertexts, recovered messages/tags, both states after every step (search); the same histories through the extracted model (correspondence); object API push/pull vs classic Wrong deliveries include the genuine next ciphertext with a message buffer that is too short.",
     "modelled": _SYM_MODELLED,
     "assumptions": ["out-of-position ciphertexts are rejected because the state (nonce) differs: rests on the MAC assumption of C02"],
     "partial": "lockstep and failure-preserves-state proved; out-of-position rejection enumerated",
@@ -223,7 +223,7 @@ PROPS["C04"] = {
     "builds": ["stable"],
     "rule": "every length 0..=160 (thorough 400) x {zeros, 0xff, PRNG, valid-prefix, valid-with-mutation} through secretbox / box / sealed opens (classic + from_bytes), stream pull (classic + object), crypto_sign_open, SignedMessage::from_bytes+verify, verify_detached / final_verify with 64-byte and public keys of every class, "
             "object-API MAC verification with a Vec authenticator of every length 0..=80; authentic stream messages with every tag byte 0..=255 pushed by libsodium; grammar-built (40 one-defect variants) and soup password-hash strings through str_verify / needs_rehash / from_string / verify; "
-            "a counting global allocator records the largest single request (bound 8 KiB + 8*len). Debug profile with overflow checks. non-trivial = length >= the fixed overhead",
+            "a counting global allocator records the largest single request (bound 8 KiB + 8*len). Debug profile with overflow checks. non-trivial = length >= the fixed overhead Stored password-hash records (serde): declared hash lengths up to 2^64-1 and every configuration field set to values no written record holds -- decode and verify answer, with the allocation meter.",
     "modelled": _SYM_MODELLED + ["signature, MAC-object and password-string entry points are not in the model: search only"],
     "assumptions": ["panics inside external crates are visible only to the harness", "password-hash strings with bounded cost parameters (m <= 64 KiB, t <= 3) as the property states"],
     "partial": "box / stream entry points proved over the model; the rest by exhaustive-length search on the implementation",
@@ -241,7 +241,7 @@ PROPS["C05"] = {
     ],
     "builds": ["stable", "nightly"],
     "rule": "8 (thorough 24) scalars incl. 0, 0xff.., RFC vectors x {complete low-order / non-canonical table incl. libsodium blocklist, u=0..15, p-1, p, p+1, p+2, 2p-2..2p, 2^255-1, 2^256-1, RFC points, all with and without bit 255, 120 (thorough 600) PRNG encodings}: dryoc = libsodium byte for byte (search); "
-            "RFC 7748 iterated vector 1 / 1000 (thorough 10^6) iterations; DH commutation, beforenm, kx client/server vs libsodium for PRNG pairs, kx with every zero-secret peer key; ~50 cases through the extracted Coq ladder (correspondence). non-trivial: all",
+            "RFC 7748 iterated vector 1 / 1000 (thorough 10^6) iterations; DH commutation, beforenm, kx client/server vs libsodium for PRNG pairs, kx with every zero-secret peer key; ~50 cases through the extracted Coq ladder (correspondence). non-trivial: all Sessions for key pairs assembled from slices (public half as given) against libsodium.",
     "modelled": ["curve25519-dalek (MontgomeryPoint::mul_clamped, basepoint table) modelled by the RFC 7748 ladder over Z mod 2^255-19 (Spec/X25519.v); tied by correspondence only",
                  "HSalsa20 (beforenm) and BLAKE2b (kx) as in C07"],
     "assumptions": ["DH commutes / the ladder computes scalar multiplication on curve and twist: Montgomery group law, not formalised (no elliptic-curve library installed)"],
@@ -263,7 +263,7 @@ PROPS["C10"] = {
     ],
     "builds": ["stable"],
     "rule": "parser / encoder correspondence (from_string fields via serde, to_string, needs_rehash) on grammar-built strings: valid (both algorithms, salt 8..32, hash 16..64 bytes) and 40 one-defect variants (dropped / duplicated / reordered fields, numeric overflow, '+', leading zeros, bad base64, padding, p!=1, v!=19, unknown algorithm, field-like salts), fragments, PRNG soup; "
-            "dryoc strings verified by libsodium (right / wrong password) and libsodium strings of both algorithms verified, parsed and re-encoded by dryoc; needs_rehash against libsodium on matching / differing costs; object API with salt 8..64 and hash 16..128 bytes (search). non-trivial = string longer than 40 bytes or valid",
+            "dryoc strings verified by libsodium (right / wrong password) and libsodium strings of both algorithms verified, parsed and re-encoded by dryoc; needs_rehash against libsodium on matching / differing costs; object API with salt 8..64 and hash 16..128 bytes (search). non-trivial = string longer than 40 bytes or valid Interop at memory sizes 516 / 1000 / 1540 / 2047 KiB; PwHash::hash under a parsed Argon2i configuration.",
     "modelled": ["base64 0.21 GeneralPurpose(STANDARD, NO_PAD) and u32::from_str, str::split/starts_with/strip_prefix/contains are modelled from their documentation (Impl/PwhashStr.v) and tied by correspondence incl. malformed inputs",
                  "Argon2 itself is C09; str / str_verify are exercised against libsodium only"],
     "assumptions": ["libsodium as the reference verifier"],
@@ -286,7 +286,7 @@ PROPS["C16"] = {
     "builds": ["stable", "nightly"],
     "rule": "for N in {8,16,24,32,64}: every element count 0..=2N as a JSON array (serde_json -> visit_seq) and as a bincode byte string (-> visit_bytes) and through TryFrom; objects DryocSecretBox, DryocBox (plain and sealed), SignedMessage with every payload length 0..=80 (thorough 300): "
             "to_bytes = libsodium layout, from_bytes / from_parts / JSON / bincode round trips reproduce an equal object that still decrypts / verifies; KeyPair, SigningKeyPair, kx Session, Kdf, PwHash round trips; fixed-length fields inside objects with one element dropped / added (JSON) or a 15 / 17-byte string (bincode); "
-            "visitor and from_bytes results compared with the extracted model (correspondence). Stack and Vec containers on the default build; on the nightly build additionally HeapBytes and LockedBytes (element counts 0..=17, 64, 4097; thorough 0..=70, 127..129, 4095..4097; JSON sequences, bincode byte strings, own round trips) and Locked<HeapByteArray<N>> for N in {24, 32} with every element count 0..=2N. non-trivial: all",
+            "visitor and from_bytes results compared with the extracted model (correspondence). Stack and Vec containers on the default build; on the nightly build additionally HeapBytes and LockedBytes (element counts 0..=17, 64, 4097; thorough 0..=70, 127..129, 4095..4097; JSON sequences, bincode byte strings, own round trips) and Locked<HeapByteArray<N>> for N in {24, 32} with every element count 0..=2N. non-trivial: all Key pairs rebuilt from their own key bytes (from_secret_key, from_slices; signing and box pairs; stack and Vec).",
     "modelled": ["serde_json (arrays -> visit_seq, element by element) and bincode (length-prefixed bytes -> visit_bytes) are external: assumption validated by correspondence with the real crates",
                  "derived Serialize/Deserialize impls of the object types are exercised, not modelled"],
     "assumptions": [],
@@ -327,7 +327,7 @@ PROPS["C06"] = {
     ],
     "builds": ["stable"],
     "rule": "4 (thorough 12) seeds incl. RFC 8032 test 1, 0, 0xff x every message length 0..=130 (+1 KiB): seed key pair, detached / combined / object / pre-hashed-incremental signatures = libsodium's, verify accepts; every single-bit mutation of message, signature and public key for short messages (decision = libsodium's); "
-            "malleation S + kL for every k keeping S < 2^256; the 8 torsion points and 6 non-canonical encodings as R and as public key with honest and with equation-satisfying forged signatures (R = identity, S = 0; R = B, S = 1 over 16 messages), both modes; mode cross-overs (search); ~15 cases through the extracted Coq RFC 8032 model (correspondence)",
+            "malleation S + kL for every k keeping S < 2^256; the 8 torsion points and 6 non-canonical encodings as R and as public key with honest and with equation-satisfying forged signatures (R = identity, S = 0; R = B, S = 1 over 16 messages), both modes; mode cross-overs (search); ~15 cases through the extracted Coq RFC 8032 model (correspondence) Signing with key pairs whose public_key field is not the key embedded in the secret key.",
     "modelled": _ED_MODELLED,
     "assumptions": ["Edwards group law ([S]B = R + [k]A for honest signatures): not formalised", "rejection of cross-mode signatures rests on SHA-512 collision resistance"],
     "partial": "strictness, framing, format proved over the model; completeness (honest signatures verify) and equality with libsodium by correspondence / search",
@@ -340,7 +340,7 @@ PROPS["C13"] = {
         {"name": "C13_sk_to_curve25519", "status": "proved", "statement": "converted secret key = clamp(SHA-512(seed)[0..32])"},
     ],
     "builds": ["stable"],
-    "rule": "box seeds of every length 0..=128 (zero-pattern and PRNG) against SHA-512 + X25519-base computed with libsodium, and libsodium's own crypto_box_seed_keypair at 32 bytes; object KeyPair::from_seed; 48 (thorough 256) 32-byte seeds incl. 0 / 0xff: kx and signing seed key pairs, Ed25519->X25519 conversion of both halves = libsodium's and consistent (pk = base(sk)); public key recomputed from (unclamped) secret keys; password-derived key pair for hash_length 32/64/16/48 against libsodium crypto_pwhash(32)+base (search); ~10 cases through the extracted model (correspondence)",
+    "rule": "box seeds of every length 0..=128 (zero-pattern and PRNG) against SHA-512 + X25519-base computed with libsodium, and libsodium's own crypto_box_seed_keypair at 32 bytes; object KeyPair::from_seed; 48 (thorough 256) 32-byte seeds incl. 0 / 0xff: kx and signing seed key pairs, Ed25519->X25519 conversion of both halves = libsodium's and consistent (pk = base(sk)); public key recomputed from (unclamped) secret keys; password-derived key pair for hash_length 32/64/16/48 against libsodium crypto_pwhash(32)+base (search); ~10 cases through the extracted model (correspondence) derive_keypair with memory sizes that are not multiples of 4 KiB; signing pairs in stack / array / Vec containers.",
     "modelled": _ED_MODELLED + ["X25519 base multiplication as in C05"],
     "assumptions": ["conversion consistency (birational map is a homomorphism): not formalised, compared with libsodium"],
     "partial": "constructions are definitional in the model; equality with libsodium by search",
@@ -358,7 +358,7 @@ PROPS["C14"] = {
     ],
     "builds": ["nightly"],
     "rule": "all operation sequences up to depth 3 (thorough 5) over the type-state graph {lock, unlock, read-only, read-write, no-access, clone, resize up / down} + drop, for HeapBytes of lengths 0, 1, 16, 32, 64, page-1, page, page+1, 2*page, 2*page+1 and HeapByteArray<N> for N in {1, 16, 64, 4095, 4096, 4097, 8193}; each in a forked child; after every step: rights of first / last data page and of the page before from /proc/self/maps, a no-access page after the allocation, VmLck, contents, forked read / write probes (SIGSEGV or not) on the last byte; after the drop VmLck = 0; "
-            "the HeapBytes sequences of depth <= 3 also run through the extracted model (correspondence of page rights, locked-page count, final state). non-trivial: all (exhaustive over that family)",
+            "the HeapBytes sequences of depth <= 3 also run through the extracted model (correspondence of page rights, locked-page count, final state). non-trivial: all (exhaustive over that family) munlock is applied in every lock state (on unlocked regions it must change nothing).",
     "modelled": _PROT_MODELLED,
     "assumptions": ["OsModel (see modelled)", "x86-64 Linux, 4096-byte pages"],
     "partial": "invariant proved over the assumed OS model; faults / VmLck / VMA behaviour observed, not proved",
@@ -372,7 +372,7 @@ PROPS["C15"] = {
         {"name": "C15_example", "status": "proved", "statement": "non-vacuity: sizes of the release events of a grow + clone sequence, by vm_compute"},
     ],
     "builds": ["nightly"],
-    "rule": "all sequences up to depth 3 (thorough 5) over {fill with non-zero secret, lock, unlock, protect, clone, resize up / down} + drop for HeapBytes of lengths 1, 16, 100, page-1, page, page+1, 2*page+1, 5*page and HeapByteArray<16/4096/4097>, plus plain HeapBytes grow / shrink / drop; hook verif_set_release_observer reports every region handed to free(): size and count of non-zero bytes (read with process_vm_readv); any non-zero byte is a violation (search); release sizes and flags compared with the model (correspondence)",
+    "rule": "all sequences up to depth 3 (thorough 5) over {fill with non-zero secret, lock, unlock, protect, clone, resize up / down} + drop for HeapBytes of lengths 1, 16, 100, page-1, page, page+1, 2*page+1, 5*page and HeapByteArray<16/4096/4097>, plus plain HeapBytes grow / shrink / drop; hook verif_set_release_observer reports every region handed to free(): size and count of non-zero bytes (read with process_vm_readv); any non-zero byte is a violation (search); release sizes and flags compared with the model (correspondence) Blocks returned to the ordinary heap while a container is resized / cloned / moved between states are searched for a marked secret; a region released, reused by a smaller container and released again is clean beyond its reported size.",
     "modelled": _PROT_MODELLED,
     "assumptions": ["what the system allocator receives is observed through the hook placed immediately before free()"],
     "partial": "",
@@ -387,7 +387,7 @@ PROPS["C19"] = {
     ],
     "builds": ["nightly"],
     "ld_preload": True,
-    "rule": "for HeapBytes of lengths 0, 1, 64, page, page+1 and every sequence up to depth 2 (thorough 4): the unfailed run counts the mlock calls; then for each k the run in which the k-th and all later mlock calls are refused (LD_PRELOAD interposer): no abort, no panic in Result-returning constructors / transitions, earlier regions (clones) keep their page rights, VmLck = 0 and only wiped releases after cleanup; the six Result-returning constructors with the first lock refused; outcome classes compared with the model (correspondence)",
+    "rule": "for HeapBytes of lengths 0, 1, 64, page, page+1 and every sequence up to depth 2 (thorough 4): the unfailed run counts the mlock calls; then for each k the run in which the k-th and all later mlock calls are refused (LD_PRELOAD interposer): no abort, no panic in Result-returning constructors / transitions, earlier regions (clones) keep their page rights, VmLck = 0 and only wiped releases after cleanup; the six Result-returning constructors with the first lock refused; outcome classes compared with the model (correspondence) Thirteen Result-returning constructors with the first lock refused.",
     "modelled": _PROT_MODELLED + ["the refusal is injected by interposing on mlock (root ignores RLIMIT_MEMLOCK)"],
     "assumptions": ["resize / clone of a locked region have no Result in their signature: a panic there is outside the property and is tolerated by the check"],
     "partial": "",
@@ -405,7 +405,7 @@ PROPS["C20"] = {
     ],
     "gen_obligations": ["Gen/ImplTable.v regenerated from src/protected.rs and src/dryocstream.rs (trait impl headers incl. bounds, aliases expanded, blanket impls closed)"],
     "builds": ["nightly20"],
-    "rule": "one program per cell of {HeapBytes, HeapByteArray<32>} x {ReadWrite, ReadOnly, NoAccess} x {Locked, Unlocked} x {read view, mutable view, array view, index, resize, clone, lock, unlock, read-only, read-write, no-access, mutable array view, DerefMut, AsRef<[u8]>, AsMut<[u8]>, AsRef<[u8; N]>, AsMut<[u8; N]>} (204), use-after-transition programs for every state (22), push/pull on push/pull streams (5): compiled with nightly rustc against the freshly built rlib (--emit=metadata); compiles <=> the property's table (search) and <=> the model's resolution of the regenerated impl table (correspondence); two control programs exercising every permitted operation along the reachable states are compiled and run. exhaustive over the table",
+    "rule": "one program per cell of {HeapBytes, HeapByteArray<32>} x {ReadWrite, ReadOnly, NoAccess} x {Locked, Unlocked} x {read view, mutable view, array view, index, resize, clone, lock, unlock, read-only, read-write, no-access, mutable array view, DerefMut, AsRef<[u8]>, AsMut<[u8]>, AsRef<[u8; N]>, AsMut<[u8; N]>} (204), use-after-transition programs for every state (22), push/pull on push/pull streams (5): compiled with nightly rustc against the freshly built rlib (--emit=metadata); compiles <=> the property's table (search) and <=> the model's resolution of the regenerated impl table (correspondence); two control programs exercising every permitted operation along the reachable states are compiled and run. exhaustive over the table Control programs include every permitted transition of an empty HeapBytes.",
     "modelled": ["the Rust trait solver and borrow checker are not modelled: resolves() is an approximation (trait + mode parameters + bounds on the container) whose agreement with rustc is checked cell by cell"],
     "assumptions": ["nightly rustc 1.97 is the reference compiler"],
     "partial": "table equality proved; compiler agreement checked exhaustively, not proved",
